@@ -196,7 +196,19 @@ class GateAnalysis(taint.FnAnalysis):
             td = self.f.ty(rv[3])
             if td.get("k") == "uint" and td.get("bits") == 8:
                 l = operand_local(rv[2])
+                for _ in range(4):      # plain copies
+                    d = self.body.single_def(l) if l is not None else None
+                    if d and d[2] == "A" and d[3][2][0] == "use" and operand_local(d[3][2][1]) is not None:
+                        l = operand_local(d[3][2][1])
+                    else:
+                        break
                 d = self.body.single_def(l) if l is not None else None
+                if d is None and l is not None and 0 < l <= self.fn["argc"] and len(self.fn["blocks"]) <= 4 \
+                        and self.f.ty(self.body.local_ty(l)).get("bits") == 32:
+                    # `fn status_to_byte(status: u32) -> u8 { status as u8 }`: the helper form of the same cast
+                    labs = self.st_read(st, (place[0], ()))
+                    key = ("maskbyte", line, "mask byte from a status parameter")
+                    self.events[key] = self.events.get(key, taint.EMPTY) | labs | frozenset([("maskmark",)])
                 if d and d[2] == "A" and d[3][2][0] == "un" and d[3][2][1] == "Not":
                     sl = operand_local(d[3][2][2])
                     if sl is not None:
@@ -694,7 +706,13 @@ def check_maskbytes(facts, run, prop, table, cfg, eng):
                 if path and path[0] == ent.get("status_field", 1):
                     st_labels |= v
             rf = set(x for x in fset(st_labels) if re.fullmatch(ent["facts"], x))
-            masks = [(k, v) for k, v in summ.sinks.items() if k[0] == "maskbyte" and not isinstance(k[1], tuple)]
+            def tiny_helper(site):
+                # a mask byte made by a small private helper (`fn status_to_byte(ok: u32) -> u8`) counts as made here
+                if not (isinstance(site, tuple) and len(site) == 3 and not isinstance(site[2], tuple)):
+                    return False
+                cands = [g_ for g_ in facts.fns.values() if g_["name"] == site[1]]
+                return bool(cands) and all((not g_.get("reach")) and len(g_["blocks"]) <= 4 for g_ in cands)
+            masks = [(k, v) for k, v in summ.sinks.items() if k[0] == "maskbyte" and (not isinstance(k[1], tuple) or tiny_helper(k[1]))]
             n += 1
             run.oblige(ok=bool(masks))
             if not masks:
@@ -708,8 +726,8 @@ def check_maskbytes(facts, run, prop, table, cfg, eng):
                 if miss:
                     run.add(Finding("G9b", norm_name(fn["name"]),
                                     "gates G9b: in %s (%s:%s) the substitution mask does not depend on %s although the returned status does -- %s" % (
-                                        fn["name"], fn["file"], k[1], sorted(miss)[0], ent["why"]),
-                                    config=cfg, site="%s:%s" % (fn["file"], k[1]), prop=prop))
+                                        fn["name"], fn["file"], k[1] if not isinstance(k[1], tuple) else k[1][0], sorted(miss)[0], ent["why"]),
+                                    config=cfg, site="%s:%s" % (fn["file"], k[1] if not isinstance(k[1], tuple) else k[1][0]), prop=prop))
     return n
 
 
